@@ -74,7 +74,7 @@ def main(argv: list[str]) -> int:
             with open(args.replay, encoding="utf-8") as f:
                 data = json.load(f)
             obs = mod.replay(data["replay"])
-            print(json.dumps(core.jsonable(obs), indent=1, ensure_ascii=False))
+            print(core.printable(json.dumps(core.jsonable(obs), indent=1, ensure_ascii=False)))
             if obs.get("violated"):
                 print(f"VIOLATION property={prop} replay={args.replay}")
                 return 1
@@ -119,7 +119,7 @@ def main(argv: list[str]) -> int:
         print(f"{prop} tier={args.tier} seed={seed} level={report.level} {json.dumps(summary)} wall={timer():.1f}s")
         if new:
             for v, path in new[:40]:
-                print(f"  {v.key} :: {v.what}")
+                print(core.printable(f"  {v.key} :: {v.what}"))
                 print(f"VIOLATION property={prop} replay={path}")
             if len(new) > 40:
                 print(f"  ... and {len(new) - 40} more distinct violation signatures")
@@ -127,7 +127,7 @@ def main(argv: list[str]) -> int:
         print(f"OK property={prop}")
         return 0
     except core.HarnessError as err:
-        print(f"HARNESS-ERROR property={prop}: {err}")
+        print(core.printable(f"HARNESS-ERROR property={prop}: {err}"))
         return 2
     except Exception as err:  # noqa: BLE001  a crash of the machinery is never a verdict
         import traceback
